@@ -1443,3 +1443,13 @@ VP("C11-R3C-mut-unwrapped-escape", "C11", "merged handler: a foreign exception i
 V("C11-schema-validator-error-unwrapped", "C11", "a foreign exception from a schema validator is re-raised unwrapped", CORE,
   "                exc = ValidationError(config, None, err)\n                if not collect_errors:\n                    raise exc from err",
   "                exc = ValidationError(config, None, err)\n                if not collect_errors:\n                    raise")
+VP("C11-R3D-mut-require-allows-empty", "C11", "helper form: containers call the required check without allow_empty=False", "C11-R3D", "cincoconfig/fields/dict_field.py",
+   "        self._require_value(value, allow_empty=False)", "        self._require_value(value)")
+VP("C11-R3D-mut-report-drops-when-collecting", "C11", "helper form: collected error is built but not appended", "C11-R3D", CORE,
+   "        if collect_errors:\n            errors.append(exc)\n        elif exc is err:", "        if collect_errors:\n            pass\n        elif exc is err:")
+VP("C11-R3D-mut-report-raises-foreign", "C11", "helper form: the original exception is raised instead of the wrapped one", "C11-R3D", CORE,
+   "        else:\n            raise exc from err", "        else:\n            raise err")
+VP("C11-R3D-mut-skip-tuple-grows", "C11", "class-level skip tuple also lists Field", "C11-R3D", CORE,
+   "        IncludeFieldMixin,\n        VirtualFieldMixin,\n        InstanceMethodFieldMixin,\n    )", "        IncludeFieldMixin,\n        VirtualFieldMixin,\n        InstanceMethodFieldMixin,\n        StringField,\n    )")
+VP("C11-R3D-mut-required-helper-inverted", "C11", "helper form: required test inverted", "C11-R3D", CORE,
+   "        if not self.required:\n            return\n\n        missing", "        if self.required:\n            return\n\n        missing")
